@@ -344,7 +344,13 @@ class Run:
             elif s == 'write':
                 if fr.kind == 'bf':
                     fn = getattr(fr, 'path_recv', None) or self.sb.path(fr.path)
-                    mt = self.sb.write_file(fn, st['c'], st['sz'], st.get('mt'))
+                    try:
+                        mt = self.sb.write_file(fn, st['c'], st['sz'], st.get('mt'))
+                    except OSError as x:
+                        # the function's own open() fails (its target was turned into a directory by a nested
+                        # call, or lies below a regular file): the function ends by raising that error
+                        self.ev(ev='fn_end', out='raise', v={'k': 'none'}, x=0, prop=False, err=x.__class__.__name__)
+                        raise
                     fr.wrote = (st['c'], st['sz'], mt)
                     self.ev(ev='write', c=st['c'], sz=st['sz'], mt=mt)
                 fr.obs.append(['w', st['c'], st['sz']])
